@@ -26,7 +26,8 @@ COMPONENTS = {"real": ["ECAgent.Core.SystemManager.execute_systems (activation p
               "stub": ["System.execute bodies are harness recorders"]}
 PROBES = ["fired_at_end", "silent_after_end", "negative_start", "end_before_start", "late_registration_out_of_phase",
           "late_registration_in_phase", "bad_n_rejected", "freq_beyond_horizon", "bare_execute_systems", "reregistered_after_removal", "registered_from_inside_a_step",
-          "registered_inside_multi_step_request", "str_subclass_id", "numpy_int_window", "falsy_systems", "system_failure_reached_the_caller", "systems_returning_values_from_execute", "run_continued_on_a_deep_copy"]
+          "registered_inside_multi_step_request", "str_subclass_id", "numpy_int_window", "falsy_systems", "system_failure_reached_the_caller", "systems_returning_values_from_execute", "run_continued_on_a_deep_copy",
+          "window_of_a_registered_system_edited_in_place", "clock_put_back"]
 TECHNIQUE = "deterministic simulation: model clock stepped through the real scheduler vs a reference timer wheel and a single-stepped twin model"
 LEVEL_TEXT = ("Seeded search over timer windows, registration instants and advance patterns; every firing of every timestep is "
               "compared with the predicate start<=t<=end and (t-start)%f==0, the clock with the count of accepted steps, "
@@ -108,6 +109,11 @@ def generate(rng, tier):
             f = systems[by]["freq"]
             t = max(0, systems[by]["start"]) + f * rng.randint(0, max(1, horizon // (2 * f)))   # a firing instant of the spawner
             spawns.append({"by": by, "t": min(t, horizon - 1), "k": k})
+    for _ in range(rng.choice([0, 0, 0, 1, 2])):
+        ops.insert(rng.randint(0, len(ops)), {"op": "rewindow", "k": rng.randrange(n), **rng.choice([{"end": rng.randint(0, 12)}, {"end": rng.randint(0, 12)},
+                                                                                                       {"start": rng.randint(-3, 6)}])})
+    if rng.random() < 0.1:
+        ops.insert(rng.randint(len(ops) // 2, len(ops)), {"op": "setclock", "t": rng.choice([0, 0, 1, 3, rng.randint(0, 20)])})
     if rng.random() < 0.12:
         ops.insert(rng.randint(0, len(ops)), {"op": "branch", "then": rng.choice(["complete_source", "complete_source", "collect_source", "nothing"])})
     raises = None
@@ -312,6 +318,36 @@ def execute(sc, ctx):
             ctx.probe("bare_execute_systems")
             if advance(1, "bare"):
                 break
+        elif kind == "rewindow":
+            # the window of a REGISTERED system is edited in place (public attributes): from now on the new window counts
+            if not systems:
+                continue
+            sid = systems[op["k"] % len(systems)]["id"]
+            if not ref.has(sid):
+                continue
+            for mdl in (m, twin):
+                obj_ = mdl.systems[sid]
+                ctx.check(obj_ is not None, "registry", f"{sid} is registered but systems[{sid!r}] is None")
+                if "end" in op:
+                    obj_.end = ref.t + int(op["end"])
+                if "start" in op:
+                    obj_.start = ref.t + int(op["start"])
+            for s_ in ref.q:
+                if s_["id"] == sid:
+                    if "end" in op:
+                        s_["end"] = ref.t + int(op["end"])
+                    if "start" in op:
+                        s_["start"] = ref.t + int(op["start"])
+            ctx.probe("window_of_a_registered_system_edited_in_place")
+            ctx.event("rewindow", sid, op.get("start"), op.get("end"))
+        elif kind == "setclock":
+            # the clock is a public attribute: a burn-in is followed by putting it back (never inside a step)
+            v_ = max(0, min(int(op["t"]), ref.t))
+            m.systems.timestep = v_
+            twin.systems.timestep = v_
+            ref.t = v_
+            ctx.probe("clock_put_back")
+            ctx.event("setclock", v_)
         elif kind == "branch":
             # checkpoint / branch: the run continues on a deep copy of the model (systems and their log travel along); the
             # source model is completed (or dropped) afterwards - the copy is a running model of its own
